@@ -86,6 +86,15 @@ def do_step(step, root):
     ap = Path(root) / step["ap_file"]
     conv = neuropixel.NP2Converter(ap, post_check=step["post_check"], delete_original=step["delete_original"],
                                    compress=step["compress"])
+    trial = None
+    if step.get("pre_trial"):
+        # the same converter object is first used for a trial conversion of the first samples into "_trial" folders
+        # (original kept, nothing compressed), then re-initialised for the real run
+        opts = (conv.delete_original, conv.compress)
+        conv.delete_original, conv.compress = False, False
+        conv.init_params(nsamples=int(step["pre_trial"]), nwindow=step["nwindow"], extra="_trial")
+        trial = int(conv.process(overwrite=True))
+        conv.delete_original, conv.compress = opts
     conv.init_params(nwindow=step["nwindow"], extra=step.get("extra") or None, nshank=step.get("nshank") or None)
     pre = None
     if step.get("pre_noop_call"):
@@ -111,7 +120,7 @@ def do_step(step, root):
             files = [os.path.relpath(p, root) for p in lst]
         except Exception as e:
             files = ["<raised " + type(e).__name__ + ">"]
-    return {"status": int(status), "pre": pre, "post": post, "again": again, "files": files}
+    return {"status": int(status), "pre": pre, "post": post, "again": again, "files": files, "trial": trial}
 
 
 def eligible(label):
@@ -168,6 +177,9 @@ def _gen_step(r, nfaults, first):
         st["pre_noop_call"] = True
         st["overwrite"] = True
         st["fault"] = None
+    if st["fault"] is None and not st.get("pre_noop_call") and r.random() < 0.1:
+        # one converter object: trial conversion of the first samples, then init_params() again and the real run
+        st["pre_trial"] = r.choice([600, 1000, 1200])
     if nfaults < 2 and r.random() < 0.12:
         # verification-targeted: a completed AP write is silently corrupted while the options ask
         # for verify-then-delete; a real verification must refuse to delete
@@ -411,6 +423,8 @@ def _exec_step(W, st, model, log, stats, bump, seed):
         st["post_noop_call"] = False
     if st.get("pre_noop_call") and (st.get("fault") or not (model["completed"] and not model["dirty"])):
         st["pre_noop_call"] = False      # only meaningful over complete earlier output, and fault-free
+    if st.get("pre_trial") and (st.get("fault") or kind not in ("NP24", "NP24_1sh") or st.get("nshank") or st["pre_trial"] >= W.w["ns"]):
+        st["pre_trial"] = None
     fault = st.get("fault")
     if fault and fault.get("auto"):
         dr = session.dry_run(W.root, do_step, st, W.cfg, pool_seed, pre=instrument)
@@ -421,7 +435,7 @@ def _exec_step(W, st, model, log, stats, bump, seed):
         st["fault"] = fault
     before = snapshot(W.root)
     sig_before = W.tree_sig()
-    fresh = not any(k.startswith(LABEL + c) for k in before for c in "abcd") and not any(".lf." in k for k in before)
+    fresh = not any(k.startswith(LABEL + c) and "_trial/" not in k for k in before for c in "abcd") and not any(".lf." in k and "_trial/" not in k for k in before)
     res = session.run_step(W.root, do_step, st, fault, W.cfg, pool_seed, pre=instrument)
     stats["steps"] += len(res["events"])
     stats.setdefault("_step_events", []).append(res["events"])
@@ -500,12 +514,14 @@ def _exec_step(W, st, model, log, stats, bump, seed):
         bump("probes", "two_calls_on_one_converter_object")
         if post["status"] != 0 or post["changed"]:
             raise Violation("C04.S3", f"{sig0}:same-object-rerun", f"plain run on the same converter object right after a completed run returned {post['status']} and changed {post['changed']} | " + ctx)
+    if out and "ok" in out and out["ok"].get("trial") is not None:
+        bump("probes", "trial_run_then_real_run_on_one_converter_object")
     again = out["ok"].get("again") if out and "ok" in out else None
     if again is not None:
         bump("probes", "two_writing_calls_on_one_converter_object")
         if again != 1:
             raise Violation("C04.S4", f"{sig0}:same-object-forced-status", f"forced re-run on the same converter object returned {again} | " + ctx)
-    changed = snap_diff(before, after)
+    changed = [c for c in snap_diff(before, after) if "_trial/" not in c[0]]      # the step's own trial conversion is not the judged call
     if status in (0, -1) and changed:
         what = "prior-complete" if model["completed"] and not model["dirty"] else ("fresh" if fresh else "debris")
         raise Violation("C04.S3", f"{kind}:ow{int(st['overwrite'])}:status{status}-but-changed:{what}",
